@@ -5131,6 +5131,16 @@ where
                 tds.assign_neighbors().map_err(de::Error::custom)?;
                 tds.assign_incident_cells().map_err(de::Error::custom)?;
 
+                // Reject documents whose elements are malformed: a cell must list exactly D+1
+                // distinct vertices and every vertex must have finite coordinates.  (Neighbour
+                // rebuilding above only catches over-shared facets and unknown vertex UUIDs.)
+                for (_, vertex) in &tds.vertices {
+                    (*vertex).is_valid().map_err(de::Error::custom)?;
+                }
+                for (_, cell) in &tds.cells {
+                    cell.is_valid().map_err(de::Error::custom)?;
+                }
+
                 Ok(tds)
             }
         }
